@@ -545,6 +545,14 @@ func relSpelling(r *rand.Rand, from, to string, ptr []string, vary bool) string 
 	fu, _ := url.Parse(from)
 	tu, _ := url.Parse(to)
 	if fu.Scheme != tu.Scheme || fu.Host != tu.Host || (vary && r.Intn(5) == 0) {
+		if vary && tu.RawQuery == "" && r.Intn(4) == 0 {
+			// an absolute reference whose path is not in its simplest form (dot segments; a doubled slash would be
+			// another path for RFC 3986, and is collapsed by the library: left out)
+			dir, file := path.Split(tu.Path)
+			alt := *tu
+			alt.Path = dir + []string{"./", "x/../", "./x/../"}[r.Intn(3)] + file
+			return alt.String() + frag
+		}
 		return to + frag
 	}
 	if fu.RawQuery != "" || tu.RawQuery != "" {
@@ -801,6 +809,22 @@ func Generate(r *rand.Rand, o Options) *World {
 		for _, n := range dn[d].defs {
 			self := idx(node{d, "schema", n, []string{"definitions", n}})
 			s := genSchema(d, self, 2)
+			if !o.NestedPtrs && !o.SwaggerOnly {
+				switch r.Intn(10) {
+				case 0:
+					// a schema whose only sub-schemas sit under the two keywords that are easiest to forget
+					s = wire.ObjV(wire.M("type", wire.StrV("array")), wire.M("additionalItems", genSchema(d, self, 1)),
+						wire.M("dependencies", wire.ObjV(wire.M("k0", genSchema(d, self, 1)), wire.M("k1", wire.ArrV(wire.StrV("k0"))))))
+					defs = defs.Set(n, s)
+					continue
+				case 1:
+					if d > 0 {
+						// the empty schema: a legal target
+						defs = defs.Set(n, wire.ObjV())
+						continue
+					}
+				}
+			}
 			if _, isRef := RefOf(s); !isRef {
 				// make the nested pointer target exist
 				p, _ := s.Get("properties")
